@@ -110,6 +110,24 @@ pub fn run(thorough: bool) -> Vec<Part> {
             part.violations.push(v.clone());
         }
     }
+    // several body-carrying requests in one stream: each is judged on its own against L
+    for (l, n1, n2) in [(10usize, 6usize, 6usize), (5, 5, 5), (5, 3, 3), (6, 6, 7)] {
+        let mut s = format!("PUT /a HTTP/1.1\r\nContent-Length: {}\r\n\r\n", n1).into_bytes();
+        s.extend(std::iter::repeat(b'a').take(n1));
+        s.extend_from_slice(format!("PATCH /b HTTP/1.0\r\nContent-Length: {}\r\n\r\n", n2).as_bytes());
+        s.extend(std::iter::repeat(b'b').take(n2));
+        s.extend_from_slice(&tail);
+        let mut cfg = Cfg::base("C04", &format!("two pipelined bodies L={} n={},{}", l, n1, n2), vec![], l);
+        cfg.stream = Some(s);
+        cfg.empty_reads = false;
+        cfg.allow_defer = true;
+        let st = bfs(&cfg, &Limits::default(), workers());
+        record(&mut part, &cfg.label, &st);
+        graphs += 1;
+        for (v, _) in &st.violations {
+            part.violations.push(v.clone());
+        }
+    }
     part.set("payload_graphs_all_segmentations", json!(graphs));
     // (a2) stateless schedules for every pair
     let t = par_enum(
